@@ -73,15 +73,17 @@ class TlsProtocolVersion(ProtocolVersionBase, GradeableSimple):
     def __eq__(self, other):
         return self.version.value.code == other.version.value.code
 
-    def __lt__(self, other):
-        if self.major == other.major:
-            return self.minor < other.minor
-        if self.is_draft:
-            return other.version == TlsVersion.TLS1_3
-        if other.is_draft:
-            return self.version != TlsVersion.TLS1_3
+    @property
+    def _order_key(self):
+        if self.version == TlsVersion.TLS1_3:
+            return (2, self.major, self.minor)
+        if self.is_draft or self.is_google_experimental:
+            return (1, self.major, self.minor)
 
-        return self.major < other.major
+        return (0, self.major, self.minor)
+
+    def __lt__(self, other):
+        return self._order_key < other._order_key  # pylint: disable=protected-access
 
     @property
     def identifier(self):
